@@ -27,4 +27,28 @@ CHECKS = [
         "text": "Theorems for every list and every byte string: delete (all three forms) leaves exactly List.filter of the WHATWG condition; unescape(escape s) = s over the escape table re-extracted from url/escape.go, which is proved to escape '%', '+', '&', '=', '?'; parser clauses ('+', valid/malformed %XX, empty pairs, one leading '?'); getters and live iterators are the list operations. set (found flag, in-place write, range-copy semantics) equals the WHATWG list-level set; sort is sorted, a permutation and stable; parse(serialize l) = l for every list of pairs of byte strings. The driver additionally compares every generated history against the list-level specification. The tie to the code: regenerated tables + running the same operation histories on the real URLSearchParams.",
         "note": "Trusted: Lean kernel, verif-extract (tables), the harness; goja string conversion and sort.Stable modelled. Histories are sampled.",
     },
+    {
+        "property_id": "C01",
+        "technique": "Lean 4 proof about a cache-free reference semantics (identity, at-most-once, failure not cached, thrown value delivered) + executable model of the code's four caches tied to it by the cache-transparency theorem (when present) and by differential correspondence with the real require()",
+        "text": "The property is stated as a reference semantics without request caches (GN/Require/Ideal.lean): a file has one module identity while in progress or evaluated, is registered before its body runs (cycles), a failed evaluation leaves nothing cached, the thrown value is what the requirer gets. Theorems prove these for every tree, body and state. The code (resolve/loadNative/loadModule with four caches, forget on failure) is transcribed in GN/Require/Eval.lean; on every run the real require() is executed on generated trees and histories and its event log must equal both the model's (with loader calls) and the reference semantics' (without).",
+        "note": "Trusted: Lean kernel, the harness, goja call-stack/exception behaviour. Evaluation is big-step with fuel. Cache transparency (model log = reference log for all trees and histories) is proved in GN/Require/CacheLemmas.lean when listed in the evidence; otherwise it is observed on every generated case.",
+    },
+    {
+        "property_id": "C02",
+        "technique": "Lean 4 proof: the code-shaped probing functions, over an arbitrary stateful loader, equal 'first hit in an explicit candidate list' (refinement, induction over the node_modules walk) + differential correspondence",
+        "text": "Theorems for every tree, state, loader behaviour and path functions: loadAsFileOrDirectory = first candidate of [X, X.js, X.json, main, main.js, main.json, main/index.js, main/index.json | X/index.js, X/index.json]; loadNodeModules = first candidate over global folders then one node_modules per level up to the root, nearest first, never a relative file; with a loader that only probes, the first existing candidate is selected, a non-'does not exist' loader error ends the search with that error, no candidate means Invalid module. Because the theorems hold for any loader state, the selection is independent of the history as soon as the loader keys by file path only (which the fix: commit established and the correspondence checks: the loader-call log, i.e. the probe order, is compared event by event).",
+        "note": "Trusted: Lean kernel, harness. Symlinks/real directories are not modelled (pure resolver). The probe order constants (.js, .json, index.*) are transcribed by hand in GN/Require/Resolve.lean and exercised by the loader-call log comparison.",
+    },
+    {
+        "property_id": "C15",
+        "technique": "Lean 4 proof about the registration-only lookup function (order, node: means core, purity, once-per-runtime) + executable model of loadNative's cache and aliases + differential correspondence across overlapping registration sets",
+        "text": "Theorems: the loader a name denotes (nativeOf) depends only on the tables and the name: registry native, else global native, else core; an unregistered 'node:'-name denotes the stripped core module or fails with No such built-in module, never a native module or file; X and node:X denote the same loader when X is core and not overridden; an existing instance is returned without running the loader again. The code's loadNative (cache by requested name plus aliases) is modelled and compared with the real require() on histories mixing prefixed, unprefixed, file and ./name requests with relative script names.",
+        "note": "Trusted: Lean kernel, harness; the global registration tables are fixed per harness process. Several runtimes on one Registry are exercised by C17's stress, not here.",
+    },
+    {
+        "property_id": "C16",
+        "technique": "Lean 4 proof: lexing the JSON-string encoding of any text as an ECMAScript string literal yields exactly that text and consumes exactly the encoding (per-character lemma + induction) + differential correspondence against JSON.parse and json.Marshal",
+        "text": "Theorem json_literal_exact: for every text (all code points) and every continuation, the encoder's output followed by the continuation lexes as one double-quoted literal whose value is the text, leaving the continuation; so the wrapper module.exports = JSON.parse(<literal>) evaluates nothing but JSON.parse(text). The encoder model is compared with the real json.Marshal on every generated content, and the real require() result with JSON.parse of the same text in the same runtime, with sentinel globals.",
+        "note": "Trusted: Lean kernel, harness, goja's lexer (assumed to follow the grammar transcribed in lexBody) and JSON.parse.",
+    },
 ]
